@@ -103,4 +103,14 @@ func VerifH09cDocumentedOrder() {
 	for _, early := range []string{"root", "index", "bind", "limits", "timeouts", "tls"} {
 		before(early, "log")
 	}
+	// the documented order itself: the standard directives (those this repository registers), as the
+	// list has them at the pinned version. A new third-party name in between does not disturb this; a
+	// change in the relative order of two standard directives changes what sites do.
+	documented := []string{"root", "index", "bind", "limits", "timeouts", "tls", "startup", "shutdown", "on", "request_id", "log", "tryfiles",
+		"rewrite", "ext", "gzip", "header", "errors", "basicauth", "redir", "status", "mime", "internal", "pprof", "expvar", "push", "templates",
+		"proxy", "fastcgi", "websocket", "markdown", "browse"}
+	for i := 1; i < len(documented); i++ {
+		ia, ib := zzIndexOf(documented[i-1]), zzIndexOf(documented[i])
+		verifrt.Assert(ia >= 0 && ib >= 0 && ia < ib, "standard-directives-in-documented-sequence")
+	}
 }
